@@ -373,6 +373,19 @@ func (g *Gen) c05Datagram(kind int, i int, reqWire, secret []byte, reqCode int, 
 			w := replyDatagram(reqWire, secret, code, as)
 			return append(w, g.RandBytes(g.Pick(0, 0, 0, 1, 7, 300))...)
 		}
+	case 14: // a maximal (4096-octet) reply signed WITHOUT the secret, or with a prefix of it
+		{
+			w := g.c05Datagram(13, i, reqWire, secret, reqCode, prev)
+			if len(w) > 4096 {
+				w = w[:4096]
+			}
+			cut := 0
+			if len(secret) > 1 && g.Bool() {
+				cut = len(secret) - 1
+			}
+			signReply(w, reqAuth, secret[:cut])
+			return w
+		}
 	case 12: // authentic reply with exactly ONE octet of its authenticator altered (each position in turn)
 		w := genuine()
 		w[4+(i+g.Intn(2)*g.Intn(16))%16] ^= byte(1 << uint(g.Intn(8)))
@@ -397,6 +410,8 @@ func genC05(g *Gen, tier string, emit func(op string, args ...string)) {
 			secret = nil
 		case 1:
 			secret = []byte("s")
+		case 2:
+			secret = g.RandBytes(g.Pick(129, 200, 253))
 		default:
 			secret = g.RandBytes(g.Range(2, 24))
 		}
@@ -435,7 +450,7 @@ func genC05(g *Gen, tier string, emit func(op string, args ...string)) {
 			case skip && g.Chance(1, 2): // with verification off most forgeries would end the call at once
 				d = g.c05Datagram(g.Pick(4, 6, 7, 7, 8, 9), i, wire, secret, reqCode, hist)
 			default:
-				d = g.c05Datagram(1+g.Intn(13), i, wire, secret, reqCode, hist)
+				d = g.c05Datagram(1+g.Intn(14), i, wire, secret, reqCode, hist)
 			}
 			hist = append(hist, d)
 		}
